@@ -1,6 +1,6 @@
 (* driver for the objects group (histories) *)
 From Coq Require Import List.
-From PyTRS Require Import Engine.Regex Extract.Val Extract.DispBase Extract.DispPlss Extract.DispObjects.
+From PyTRS Require Import Engine.Regex Extract.Val Extract.DispBase Extract.DispPlss Extract.DispObjects Extract.DispGlobal.
 Import ListNotations.
 Definition dispatch (entry : str) (args : list pv) : pv :=
-  first_some_of [dispatch_objects; dispatch_plss; dispatch_engine] entry args.
+  first_some_of [dispatch_global; dispatch_objects; dispatch_plss; dispatch_engine] entry args.
